@@ -429,6 +429,87 @@ func run(c *vf.Ctx) {
 			c.Sample(map[string]any{"cipher": "xchacha20poly1305", "key": vf.Hex(x.key), "nonce": vf.Hex(x.nonce), "pt_len": ptn, "ad_len": adn, "bit_flips_exhaustive": exh})
 		}
 	})
+	// 3. one long-lived AEAD instance (the way a connection or a key store uses it): a random
+	// sequence of Seal / Open / failing Open calls with few distinct nonce prefixes; every
+	// result must equal what the independent x/crypto instance computes for the same call.
+	nSeq := c.N(300, 6000)
+	c.Parallel(nSeq, workers, 200000, func(i int, r *rand.Rand) {
+		key := randBytes(r, 32)
+		aead, err := xchacha20poly1305.New(key)
+		if err != nil {
+			viol(c, "new-failed:xchacha20poly1305", map[string]any{"key": vf.Hex(key)}, "New failed: %v", err)
+			return
+		}
+		twin, _ := chacha20poly1305.NewX(key)
+		prefixes := [][]byte{randBytes(r, 16), randBytes(r, 16), make([]byte, 16)}
+		type sealed struct{ nonce, ct, ad, pt []byte }
+		var hist []sealed
+		var trace []string
+		nonce := func() []byte {
+			n := clone(prefixes[r.IntN(len(prefixes))])
+			return append(n, randBytes(r, 8)...)
+		}
+		steps := 4 + r.IntN(12)
+		for k := 0; k < steps; k++ {
+			c.Case(fmt.Sprintf("xchacha-instance/%d/%d", i, k), k > 0)
+			op := r.IntN(4)
+			if len(hist) == 0 {
+				op = 0
+			}
+			switch op {
+			case 0, 1: // Seal
+				n, pt, ad := nonce(), randBytes(r, r.IntN(80)), randBytes(r, r.IntN(20))
+				var ct []byte
+				if pv := vf.Try(func() { ct = aead.Seal(nil, n, pt, ad) }); pv != nil {
+					viol(c, "panic:xchacha20poly1305:Seal", map[string]any{"trace": trace}, "Seal panicked on a reused instance: %v", pv)
+					return
+				}
+				trace = append(trace, fmt.Sprintf("Seal(nonce=%x)", n))
+				if ref := twin.Seal(nil, n, pt, ad); !bytes.Equal(ref, ct) {
+					viol(c, "instance-state:xchacha20poly1305:Seal", map[string]any{"key": vf.Hex(key), "trace": trace, "nonce": vf.Hex(n), "plaintext": vf.Hex(pt), "ad": vf.Hex(ad), "ct": vf.Hex(ct), "ref": vf.Hex(ref)},
+						"step %d: Seal on an instance that served earlier calls differs from x/crypto XChaCha20-Poly1305 for the same key, nonce, plaintext and AD", k)
+					return
+				}
+				hist = append(hist, sealed{n, ct, ad, pt})
+				c.Count("xchacha_instance_seal", 1)
+			case 2: // Open of an earlier message
+				h := hist[r.IntN(len(hist))]
+				var pt []byte
+				var err error
+				if pv := vf.Try(func() { pt, err = aead.Open(nil, h.nonce, h.ct, h.ad) }); pv != nil {
+					viol(c, "panic:xchacha20poly1305:Open", map[string]any{"trace": trace}, "Open panicked on a reused instance: %v", pv)
+					return
+				}
+				trace = append(trace, fmt.Sprintf("Open(nonce=%x)", h.nonce))
+				if err != nil || !bytes.Equal(pt, h.pt) {
+					viol(c, "instance-state:xchacha20poly1305:Open", map[string]any{"key": vf.Hex(key), "trace": trace, "nonce": vf.Hex(h.nonce), "err": fmt.Sprint(err)},
+						"step %d: Open of a message sealed earlier by the same instance failed or returned other bytes (err=%v)", k, err)
+					return
+				}
+				c.Count("xchacha_instance_open", 1)
+			default: // Open that must fail: another prefix with the same tail, or junk
+				h := hist[r.IntN(len(hist))]
+				n := append(clone(prefixes[r.IntN(len(prefixes))]), h.nonce[16:]...)
+				ct := h.ct
+				if bytes.Equal(n, h.nonce) {
+					ct = flip(ct, r.IntN(len(ct)*8))
+				}
+				var pt []byte
+				var err error
+				if pv := vf.Try(func() { pt, err = aead.Open(nil, n, ct, h.ad) }); pv != nil {
+					viol(c, "panic:xchacha20poly1305:Open", map[string]any{"trace": trace}, "Open panicked on a reused instance: %v", pv)
+					return
+				}
+				trace = append(trace, fmt.Sprintf("Open!(nonce=%x)", n))
+				if err == nil {
+					viol(c, "instance-state:xchacha20poly1305:tamper-accepted", map[string]any{"key": vf.Hex(key), "trace": trace, "nonce": vf.Hex(n), "sealed_with": vf.Hex(h.nonce), "got": vf.Hex(pt)},
+						"step %d: Open accepted a ciphertext under a nonce (or with a bit) other than the one it was sealed with", k)
+					return
+				}
+				c.Count("xchacha_instance_open_rejected", 1)
+			}
+		}
+	})
 	xsalsaSecretLen(c)
 	c.Sample(map[string]any{"cipher": "xsalsa20symmetric", "plaintext_len": 0, "note": "empty plaintext round trip is one of the enumerated cases"})
 	c.Assume("golang.org/x/crypto chacha20poly1305 (inner AEAD, and NewX as the twin) and nacl/secretbox are the trusted base")
